@@ -215,16 +215,27 @@ package dag
 //@   props C13
 //@   safety
 //@   modifies step.Args, step.Command, step.CmdWithArgs, heap(alloc)
+//@ fn convertKeys(mm) (ret, err)
+//@   props C13
+//@   safety
+//@   modifies heap(alloc)
+//@   ensures err == nil ==> (ret != nil && !wasAllocated(ret))
+//@ fn convertList(list, queue) (err)
+//@   props C13
+//@   safety
+//@   modifies queue, contents(list), heap(alloc), heap(elems(any))
+//@   ensures [C13 queue_only_grows] len(deref(queue)) >= old(len(deref(queue)))
+//@   loop 0 invariant len(deref(queue)) >= old(len(deref(queue)))
 //@ fn convertMap(m) (err)
 //@   props C13
 //@   safety
-//@   modifies heap(alloc), heap(map(string, any))
+//@   modifies heap(alloc), heap(map(string, any)), heap(elems(any))
 //@   loop 1 invariant len(queue) >= 1
 //@ fn parseExecutor(def, step) (err)
 //@   props C13
 //@   safety
 //@   requires step.ExecutorConfig.Config != nil
-//@   modifies step.ExecutorConfig.Type, heap(alloc), heap(map(string, any))
+//@   modifies step.ExecutorConfig.Type, heap(alloc), heap(map(string, any)), heap(elems(any))
 //@ fn parseSubWorkflow(def, step) (err)
 //@   props C13
 //@   safety
@@ -241,7 +252,7 @@ package dag
 //@   safety
 //@   funcset stepBuilderFuncs = parseCommand, parseExecutor, parseSubWorkflow, parseMiscs
 //@   requires step_def_wf(def) && (forall i int :: 0 <= i && i < len(fns) ==> fns[i] != nil)
-//@   modifies heap(alloc), heap(map(string, any))
+//@   modifies heap(alloc), heap(map(string, any)), heap(elems(any))
 //@   loop 0 invariant step != nil && !wasAllocated(step) && step.Name == def.Name && step.ExecutorConfig.Config != nil && !wasAllocated(step.ExecutorConfig.Config)
 //@   loop 0 invariant step.SignalOnStop != "" ==> signal_num(step.SignalOnStop) != 0
 //@   ensures [C13 accepted_step_has_a_name_and_something_to_execute] err == nil ==>
@@ -277,7 +288,7 @@ package dag
 //@   props C13 C19
 //@   safety
 //@   requires b.def != nil && b.dag != nil && def_wf(b.def)
-//@   modifies b.dag.Steps, heap(alloc), heap(map(string, any))
+//@   modifies b.dag.Steps, heap(alloc), heap(map(string, any)), heap(elems(any))
 //@   ensures err == nil ==> (b.dag.Steps == nil || !wasAllocated(b.dag.Steps))
 //@   ensures [C13 every_accepted_step_is_runnable] err == nil ==> (forall i int :: 0 <= i && i < len(b.dag.Steps) ==>
 //@        (b.dag.Steps[i].Name != "" && (b.dag.Steps[i].Command != "" || b.dag.Steps[i].ExecutorConfig.Type != "" || b.dag.Steps[i].SubWorkflow != nil) &&
@@ -297,7 +308,7 @@ package dag
 //@   props C13 C19
 //@   safety
 //@   requires b.def != nil && b.dag != nil && def_wf(b.def)
-//@   modifies b.dag.HandlerOn, b.def.HandlerOn.Exit.Name, b.def.HandlerOn.Success.Name, b.def.HandlerOn.Failure.Name, b.def.HandlerOn.Cancel.Name, heap(alloc), heap(map(string, any))
+//@   modifies b.dag.HandlerOn, b.def.HandlerOn.Exit.Name, b.def.HandlerOn.Success.Name, b.def.HandlerOn.Failure.Name, b.def.HandlerOn.Cancel.Name, heap(alloc), heap(map(string, any)), heap(elems(any))
 //@   ensures err == nil ==> handlers_kept_or_fresh(b.dag)
 //@ fn (*builder).buildSMTPConfig(b) (err)
 //@   props C13 C19
@@ -338,7 +349,7 @@ package dag
 //@ fn (*builder).build(b, def, envs) (d, err)
 //@   props C13 C19
 //@   safety
-//@   modifies b, def.HandlerOn.Exit.Name, def.HandlerOn.Success.Name, def.HandlerOn.Failure.Name, def.HandlerOn.Cancel.Name, heap(alloc), heap(map(string, any)), ghost eff.exec, ghost eff.env, ghost env.key, ghost env.val
+//@   modifies b, def.HandlerOn.Exit.Name, def.HandlerOn.Success.Name, def.HandlerOn.Failure.Name, def.HandlerOn.Cancel.Name, heap(alloc), heap(map(string, any)), heap(elems(any)), ghost eff.exec, ghost eff.env, ghost env.key, ghost env.val
 //@   ensures [C19 no_eval_no_effect] old(b.opts.noEval) ==> (eff.exec == old(eff.exec) && eff.env == old(eff.env))
 //@   ensures [C13 error_or_dag] (err == nil) <==> (d != nil)
 //@   ensures err == nil ==> (!wasAllocated(d) && (d.Steps == nil || !wasAllocated(d.Steps)) && handlers_fresh(d))
@@ -363,7 +374,7 @@ package dag
 //@ fn loadYAML(data, opts) (d, err)
 //@   props C13 C19
 //@   safety
-//@   modifies heap(alloc), heap(map(string, any)), ghost eff.exec, ghost eff.env, ghost env.key, ghost env.val, ghost obs.exists_calls, ghost obs.exists, ghost obs.exists_path, ghost obs.stat_err, ghost obs.stat_path
+//@   modifies heap(alloc), heap(map(string, any)), heap(elems(any)), ghost eff.exec, ghost eff.env, ghost env.key, ghost env.val, ghost obs.exists_calls, ghost obs.exists, ghost obs.exists_path, ghost obs.stat_err, ghost obs.stat_path
 //@   ensures [C19 no_eval_no_effect] opts.noEval ==> (eff.exec == old(eff.exec) && eff.env == old(eff.env))
 //@   ensures [C13 error_or_dag] err == nil ==> d != nil
 //@   ensures [C13 accepted_definition_is_runnable] err == nil && !opts.metadataOnly ==> dag_runnable(d)
@@ -371,7 +382,7 @@ package dag
 //@ fn LoadYAML(data) (d, err)
 //@   props C13 C19 C18
 //@   safety
-//@   modifies heap(alloc), heap(map(string, any)), ghost eff.exec, ghost eff.env, ghost env.key, ghost env.val, ghost obs.exists_calls, ghost obs.exists, ghost obs.exists_path, ghost obs.stat_err, ghost obs.stat_path
+//@   modifies heap(alloc), heap(map(string, any)), heap(elems(any)), ghost eff.exec, ghost eff.env, ghost env.key, ghost env.val, ghost obs.exists_calls, ghost obs.exists, ghost obs.exists_path, ghost obs.stat_err, ghost obs.stat_path
 //@   ensures [C19 validating_has_no_side_effects] eff.exec == old(eff.exec) && eff.env == old(eff.env)
 //@   ensures [C13 error_or_runnable_dag] err == nil ==> (d != nil && dag_runnable(d))
 
@@ -379,12 +390,12 @@ package dag
 //@   props C13 C19
 //@   safety
 //@   ensures err == nil && d != nil ==> (!wasAllocated(d) && (d.Steps == nil || !wasAllocated(d.Steps)) && handlers_fresh(d))
-//@   modifies heap(alloc), heap(map(string, any)), ghost eff.exec, ghost eff.env, ghost env.key, ghost env.val, ghost obs.exists_calls, ghost obs.exists, ghost obs.exists_path, ghost obs.stat_err, ghost obs.stat_path
+//@   modifies heap(alloc), heap(map(string, any)), heap(elems(any)), ghost eff.exec, ghost eff.env, ghost env.key, ghost env.val, ghost obs.exists_calls, ghost obs.exists, ghost obs.exists_path, ghost obs.stat_err, ghost obs.stat_path
 //@   ensures [C19 no_eval_no_effect] opts.noEval ==> (eff.exec == old(eff.exec) && eff.env == old(eff.env))
 //@ fn loadBaseConfigIfRequired(baseConfig, opts) (d, err)
 //@   props C13 C19
 //@   safety
-//@   modifies heap(alloc), heap(map(string, any)), ghost eff.exec, ghost eff.env, ghost env.key, ghost env.val, ghost obs.exists_calls, ghost obs.exists, ghost obs.exists_path, ghost obs.stat_err, ghost obs.stat_path
+//@   modifies heap(alloc), heap(map(string, any)), heap(elems(any)), ghost eff.exec, ghost eff.env, ghost env.key, ghost env.val, ghost obs.exists_calls, ghost obs.exists, ghost obs.exists_path, ghost obs.stat_err, ghost obs.stat_path
 //@   ensures [C19 no_eval_no_effect] opts.noEval ==> (eff.exec == old(eff.exec) && eff.env == old(eff.env))
 //@   ensures err == nil ==> (d != nil && !wasAllocated(d) && (d.Steps == nil || !wasAllocated(d.Steps)) && handlers_fresh(d))
 
@@ -403,21 +414,21 @@ package dag
 //@ fn loadDAG(dag, opts) (d, err)
 //@   props C13 C19
 //@   safety
-//@   modifies heap(alloc), heap(map(string, any)), ghost eff.exec, ghost eff.env, ghost env.key, ghost env.val, ghost obs.exists_calls, ghost obs.exists, ghost obs.exists_path, ghost obs.stat_err, ghost obs.stat_path
+//@   modifies heap(alloc), heap(map(string, any)), heap(elems(any)), ghost eff.exec, ghost eff.env, ghost env.key, ghost env.val, ghost obs.exists_calls, ghost obs.exists, ghost obs.exists_path, ghost obs.stat_err, ghost obs.stat_path
 //@   ensures [C19 no_eval_no_effect] opts.noEval ==> (eff.exec == old(eff.exec) && eff.env == old(eff.env))
 //@   ensures [C13 error_or_dag] err == nil ==> d != nil
 
 //@ fn LoadWithoutEval(dag) (d, err)
 //@   props C13 C19
 //@   safety
-//@   modifies heap(alloc), heap(map(string, any)), ghost eff.exec, ghost eff.env, ghost env.key, ghost env.val, ghost obs.exists_calls, ghost obs.exists, ghost obs.exists_path, ghost obs.stat_err, ghost obs.stat_path
+//@   modifies heap(alloc), heap(map(string, any)), heap(elems(any)), ghost eff.exec, ghost eff.env, ghost env.key, ghost env.val, ghost obs.exists_calls, ghost obs.exists, ghost obs.exists_path, ghost obs.stat_err, ghost obs.stat_path
 //@   ensures [C19 viewing_has_no_side_effects] eff.exec == old(eff.exec) && eff.env == old(eff.env)
 //@   ensures err == nil ==> d != nil
 
 //@ fn LoadMetadata(dag) (d, err)
 //@   props C09 C13 C19
 //@   safety
-//@   modifies heap(alloc), heap(map(string, any)), ghost eff.exec, ghost eff.env, ghost env.key, ghost env.val, ghost obs.exists_calls, ghost obs.exists, ghost obs.exists_path, ghost obs.stat_err, ghost obs.stat_path
+//@   modifies heap(alloc), heap(map(string, any)), heap(elems(any)), ghost eff.exec, ghost eff.env, ghost env.key, ghost env.val, ghost obs.exists_calls, ghost obs.exists, ghost obs.exists_path, ghost obs.stat_err, ghost obs.stat_path
 //@   records obs.meta_calls = old(obs.meta_calls) + 1
 //@   records obs.meta_err = err
 //@   records obs.meta_dag = d
